@@ -616,6 +616,20 @@ def loopN : Nat → List Char → List Arg → List Char → Int → List NStore
 def printfN (format : List Char) (args : List Arg) : OutcomeN :=
   loopN (format.length + 1) format args [] 0 []
 
+/-- no directive met on the way makes the C code leave the range of `int` in
+`atoi` or in `width = -width` (follows the passes of `loop`) -/
+def guardFree : Nat → List Char → List Arg → Bool
+  | _, [], _ => true
+  | 0, _ :: _, _ => true
+  | fuel + 1, c :: cs, args =>
+    if c = NUL then true
+    else if c ≠ '%' then guardFree fuel cs args
+    else
+      !intGuard (c :: cs) args &&
+      (match directive (c :: cs) args with
+       | .ok _ _ rest args => guardFree fuel rest args
+       | _ => true)
+
 /-- the wrappers of sprintf.c on top of `printfN` (the `%n` stores happen inside `__printf`) -/
 def vsnprintfN (mem : List Char) (n : Nat) (format : List Char) (args : List Arg) :
     Option (List Char × Int × List NStore) :=
